@@ -95,7 +95,18 @@ pub enum RunError {
 
 /// Run one schedule: follow `prefix`, then the default choice, until nothing
 /// is runnable or `horizon` polls were made.
-pub fn run(mut sys: Tasks, prefix: &[usize], horizon: usize) -> Result<Execution, RunError> {
+pub fn run(sys: Tasks, prefix: &[usize], horizon: usize) -> Result<Execution, RunError> {
+    run_inner(sys, prefix, horizon, &|| false)
+}
+
+/// Default schedule, stopping early as soon as `stop()` holds (checked after
+/// every poll). Used by run-to-completion rigs where the quantifier is not
+/// over schedules.
+pub fn run_until(sys: Tasks, horizon: usize, stop: &dyn Fn() -> bool) -> Result<Execution, RunError> {
+    run_inner(sys, &[], horizon, stop)
+}
+
+fn run_inner(mut sys: Tasks, prefix: &[usize], horizon: usize, stop: &dyn Fn() -> bool) -> Result<Execution, RunError> {
     let mut x = Execution { choices: vec![], enabled: vec![], polled: vec![], quiescent: false, tasks_done: vec![] };
     let mut current: Option<usize> = None;
     for step in 0..horizon {
@@ -130,6 +141,9 @@ pub fn run(mut sys: Tasks, prefix: &[usize], horizon: usize) -> Result<Execution
             t.done = true;
         }
         current = Some(tid);
+        if stop() {
+            break;
+        }
     }
     x.tasks_done = sys.tasks.iter().map(|t| t.done).collect();
     Ok(x)
